@@ -28,6 +28,13 @@ def run3 (f : Nat → Nat → Nat → St → R St) : List Tok → Option (List T
     answer (f a b c (ofInts [v0, v1, v2, v3]))
   | _ => none
 
+def runB (f : Nat → Nat → Nat → St → R St) : List Tok → Option (List Tok)
+  | [.num w, .num u, .num cnt, .num v0, .num v1, .num v2, .num v3] => do
+    let w ← idx w; let u ← idx u
+    if cnt < 0 ∨ cnt > 100000 then none else
+    answer (f w u cnt.toNat (ofInts [v0, v1, v2, v3]))
+  | _ => none
+
 def handle : Handler
   | "alias_tdiv_qr", args => run4 tdiv_qr args
   | "alias_fdiv_qr", args => run4 fdiv_qr args
@@ -40,6 +47,8 @@ def handle : Handler
   | "alias_cdiv_r", args => run3 cdiv_r args
   | "alias_mod", args => run3 AliasMem.mod args
   | "alias_divexact", args => run3 divexact args
+  | "alias_mul_2exp", args => runB mul_2exp args
+  | "alias_tdiv_q_2exp", args => runB tdiv_q_2exp args
   | _, _ => none
 
 end Mpir.Ops.Alias
